@@ -193,3 +193,23 @@ PROPS["C12"] = dict(
     rule="one case per layout (all histories run on it); non-trivial when every history matched the resolver",
     assumptions=E2_ASSUME[:1] + ["null chips; instrument identity = 5-bit signature in register 0x60 of operator 1"],
 )
+
+PROPS["C10"] = dict(
+    level="exploration", engine="enum", title="programmed pitch = key + bend*range + instrument offset (in tune)",
+    technique="exhaustive sweep of a finite grid (chip family x bend range x note offset x key x bend value, ascending) through the public real-time API; block/F-number/multiplier registers from the tap compared with the datasheet frequency formula",
+    level_text="Every point of the stated grid is played on the library and the frequency denoted by the A4/A0 registers must lie within one F-number step of 440*2^((p-69)/12) for every p below 6.6 kHz, be non-decreasing along each ascending bend sweep, "
+               "use the drum key on percussion channels, start/end portamento at the right pitches, and one bend message must re-pitch exactly the key-down notes of its channel in that call.",
+    level_note="quick tier: every 16th bend value plus the boundaries (a complete but coarser grid); thorough: all 16384; vibrato is zero throughout; pitches above the native range (multiplier extension) are only counted, not judged",
+    legs=[Leg("pitch", ["models/c10_pitch.cpp"], "fast", [], [], timeout_thorough=7000)],
+    rule="one case per (family, range, offset, key, channel kind) containing the whole ascending bend sweep; elementary_evaluations counts the individual pitches; non-trivial when the sweep completed with every in-range pitch compared",
+    assumptions=E2_ASSUME[:1] + ["null chips; registers read from the tap's shadow of chip 0; OPN2 master clock 7670454 Hz, OPNA 7987200 Hz, f = fnum * 2^(block-1) * clock / (144 * 2^20)"],
+)
+PROPS["C11"] = dict(
+    level="exploration", engine="enum", title="loudness controls are monotone and stay within the chip's level range",
+    technique="exhaustive sweep velocity x channel volume x expression (127 x 128 x 128) x master volume {0,1,64,127} x 5 volume models x 3 algorithms, and brightness 0..127 x flag x 8 algorithms x modulator scaling x operator level 0..127 x 16 volumes x 5 models, through the real note-update path with a tap on registers 0x40..0x4F",
+    level_text="For every grid point the total-level values written lie in 0..127 (raw, untruncated values from the tap), carrier attenuation never rises along any of the four loudness axes, zero volume/expression/master silences the carriers, modulators keep the patch value unless scaling or reduced brightness applies, and lowering brightness never lowers an attenuation.",
+    level_note="velocity and master monotonicity are checked between neighbouring cases by running the neighbour in a second/third instance point by point; controller values above 127 belong to C03",
+    legs=[Leg("levels", ["models/c11_volume.cpp"], "fast", [], [])],
+    rule="one case per (model, master, algorithm, velocity) holding a 128x128 volume/expression sub-grid, or per brightness configuration; elementary_evaluations counts grid points",
+    assumptions=E2_ASSUME[:1] + ["null chips; carrier mask per algorithm from the YM2612 manual (register slot order 0x40,0x44,0x48,0x4C)"],
+)
